@@ -20,6 +20,7 @@ static const size_t SMALL_OBJ_MAX = 8 * KiB, MEDIUM_OBJ_MAX = 64 * KiB, LARGE_OB
 
 // what do the generic oracles (overlap, contents, crash, unexpected error) refute in this profile?
 const char* generic_refutes() {
+  if (!G->cfg.generic.empty()) return G->cfg.generic.c_str();
   const std::string& p = G->cfg.profile;
   if (p == "general")  return "C01";
   if (p == "aligned")  return "C03";
@@ -41,6 +42,13 @@ static inline void hmix(State& S, uint64_t v) { S.hash = (S.hash ^ v) * 10995116
 #define TRACE(S, ...) do { if ((S).cfg.trace) { fprintf(stderr, "[%llu] ", (unsigned long long)(S).op_index); fprintf(stderr, __VA_ARGS__); fputc('\n', stderr); } } while (0)
 
 static void check_errors(State& S, const char* what) {
+  if (vf_err_count != 0 && S.cfg.allow_null) {
+    // under injected OS refusals "out of memory" reports are expected; anything else is not
+    int n = vf_err_count; if (n > VF_MAX_ERRS) n = VF_MAX_ERRS;
+    bool only_nomem = true;
+    for (int i = 0; i < n; i++) if (vf_err_codes[i] != ENOMEM) only_nomem = false;
+    if (only_nomem) { vf_err_reset(); return; }
+  }
   if (vf_err_count != 0) {
     int code = vf_err_codes[0];
     vf_trip("unexpected-error", generic_refutes(), "%s: mimalloc reported error %d (%s) during a well-formed operation: %s", what, code, strerror(code), vf_last_msgs);
@@ -64,6 +72,14 @@ static size_t around_boundary(State& S, size_t k) {
 size_t gen_size(State& S) {
   size_t cap = (S.cfg.size_cap ? (size_t)S.cfg.size_cap : SIZE_MAX);
   size_t n;
+  if (S.cfg.size_mode == 1 && chance(S, 7, 10)) {
+    unsigned q = (unsigned)below(S, 100);
+    if (q < 50) n = 1 * MiB + (size_t)below(S, 7 * MiB);
+    else if (q < 80) n = 8 * MiB + (size_t)below(S, 10 * MiB);
+    else if (q < 97) n = LARGE_OBJ_MAX - 4096 + (size_t)below(S, 24 * MiB);
+    else n = 64 * MiB + (size_t)below(S, 40 * MiB);
+    return (n > cap ? cap : n);
+  }
   unsigned r = (unsigned)below(S, 100);
   static const size_t specials[] = { 0, 1, 7, 8, 9, 15, 16, 17, 24, 31, 32, 33, 48, 63, 64, 65, 1023, 1024, 1025 };
   if (r < 5) n = specials[below(S, sizeof(specials) / sizeof(specials[0]))];
@@ -111,6 +127,7 @@ static void gen_align(State& S, size_t n, size_t* pa, size_t* po) {
 // allocation
 // ------------------------------------------------------------------------------------------------
 static int pick_heap(State& S, bool allow_backing = true) {
+  if (S.force_heap >= 0 && S.heaps[S.force_heap].alive) return S.force_heap;
   std::vector<int> c;
   for (size_t i = (allow_backing ? 0 : 1); i < S.heaps.size(); i++) if (S.heaps[i].alive && S.heaps[i].arena < 0) c.push_back((int)i);
   if (c.empty()) return (allow_backing ? 0 : -1);
@@ -175,6 +192,8 @@ static void note_alloc_evidence(State& S, size_t n, size_t u) {
 
 // checks on a freshly returned block; registers it in the shadow model and patterns it
 static vf::Blk* accept_block(State& S, void* p, size_t n, int heap, size_t a, size_t o, bool zero, int ep, bool skip_fill = false) {
+  if (S.region_check && !mi_is_in_heap_region(p) && vf_os_page_state(p) < 0)
+    vf_trip("outside-heap", "C17", "%s(n=%zu) returned %p which is outside every region the allocator obtained from the OS", ep_names[ep], n, p);
   size_t u = mi_usable_size(p);
   if (u < n) vf_trip("usable-size", "C03", "%s(n=%zu): mi_usable_size=%zu < requested", ep_names[ep], n, u);
   if (a != 0) {
@@ -726,6 +745,7 @@ static bool walk_visitor(const mi_heap_t*, const mi_heap_area_t* area, void* blo
 }
 
 void walk_compare(State& S, const char* refutes) {
+  if (S.walk_disabled) return;
   settle_remote(S);
   vf_cur_what = "heap_visit_blocks";
   for (size_t hi = 0; hi < S.heaps.size(); hi++) {
@@ -877,49 +897,56 @@ static void next_phase(State& S) {
   S.victim_class = 0;
 }
 
-void run_history(State& S) {
+static Weights g_w;
+void history_begin(State& S) {
   if (S.cfg.purge_cb) vf_os_set_purge_cb(&purge_cb);
-  Weights w = weights_for(S);
-  const bool walkprof = (S.cfg.profile == "walk");
+  g_w = weights_for(S);
   next_phase(S);
-  for (S.op_index = 0; S.op_index < S.cfg.ops; S.op_index++) {
-    vf_cur_op = S.op_index;
-    if (S.phase_left-- == 0) {
-      next_phase(S);
-      if (S.phase == 7) {   // drain everything (or one heap), sometimes collect
-        if (chance(S, 1, 2)) free_all(S);
-        else { size_t target = S.sm.live.size() / 8; while (S.sm.live.size() > target) { vf::Blk* b = pick_victim(S); if (b->heap < 0) S.foreign_live--; do_free(S, b); } }
-        if (chance(S, 2, 3)) { vf_cur_what = "collect"; mi_collect(chance(S, 1, 2)); }
-        if (S.foreign_live == 0 || true) checkpoint(S, true);
-        next_phase(S);
-      }
-    }
-    if (S.cfg.clock_jitter > 0 && chance(S, 1, 6)) { int ms = (int)below(S, (uint64_t)S.cfg.clock_jitter + 1); vf_clock_advance_ms(ms); S.n_clock_ms += (uint64_t)ms; }
-    unsigned wa = w.alloc, wf = w.free_;
-    if (S.phase <= 2) { wa = wa * 3 / 2; wf = wf / 2; } else if (S.phase >= 5) { wa = wa / 2; wf = wf * 3 / 2; }
-    bool over = (S.sm.live_bytes > S.cfg.max_live_bytes || S.sm.live.size() > S.cfg.max_live_blocks);
-    if (over) { wa = 0; }
-    unsigned total = wa + wf + w.realloc_ + w.expand + w.heapop + w.collect + w.query + w.thread;
-    unsigned r = (unsigned)below(S, total);
-    if (r < wa) { do_alloc(S); }
-    else if ((r -= wa) < wf) { vf::Blk* b = pick_victim(S); if (b) { if (b->heap < 0) S.foreign_live--; do_free(S, b); } else do_alloc(S); }
-    else if ((r -= wf) < w.realloc_) { if (over) { vf::Blk* b = pick_victim(S); if (b) { if (b->heap < 0) S.foreign_live--; do_free(S, b); } } else do_realloc(S); }
-    else if ((r -= w.realloc_) < w.expand) do_expand(S);
-    else if ((r -= w.expand) < w.heapop) {
-      unsigned k = (unsigned)below(S, 10);
-      if (k < 4) do_heap_new(S); else if (k < 6) do_heap_delete(S); else if (k < 8) do_heap_destroy(S); else do_set_default(S);
-    }
-    else if ((r -= w.heapop) < w.collect) do_collect(S);
-    else if ((r -= w.collect) < w.query) do_query(S);
-    else { if (chance(S, 1, 2)) do_remote_free_batch(S); else do_thread_alloc_exit(S); }
+  S.op_index = 0;
+}
 
-    if (S.cfg.trace >= 2 && S.foreign_live == 0) check_conservation(S, "paranoid", "C12");
-    if ((S.op_index & 255) == 255) check_conservation(S, "periodic", walkprof ? "C12" : "C12,C05,C10");
-    if ((S.op_index & 511) == 511) { vf_cur_what = "verify_all"; S.sm.verify_all("periodic verification"); }
-    if (walkprof ? ((S.op_index & 63) == 63) : ((S.op_index & 1023) == 1023)) walk_compare(S, "C12");
+// one operation of the ordinary history (op_index is advanced by the caller)
+void history_step(State& S) {
+  Weights& w = g_w;
+  const bool walkprof = (S.cfg.profile == "walk");
+  vf_cur_op = S.op_index;
+  if (S.phase_left-- == 0) {
+    next_phase(S);
+    if (S.phase == 7) {   // drain everything (or most), sometimes collect
+      if (chance(S, 1, 2)) free_all(S);
+      else { size_t target = S.sm.live.size() / 8; while (S.sm.live.size() > target) { vf::Blk* b = pick_victim(S); if (b->heap < 0) S.foreign_live--; do_free(S, b); } }
+      if (chance(S, 2, 3)) { vf_cur_what = "collect"; mi_collect(chance(S, 1, 2)); }
+      checkpoint(S, true);
+      next_phase(S);
+    }
   }
-  // end of the history
-  vf_cur_op = S.cfg.ops;
+  if (S.cfg.clock_jitter > 0 && chance(S, 1, 6)) { int ms = (int)below(S, (uint64_t)S.cfg.clock_jitter + 1); vf_clock_advance_ms(ms); S.n_clock_ms += (uint64_t)ms; }
+  unsigned wa = w.alloc, wf = w.free_;
+  if (S.phase <= 2) { wa = wa * 3 / 2; wf = wf / 2; } else if (S.phase >= 5) { wa = wa / 2; wf = wf * 3 / 2; }
+  bool over = (S.sm.live_bytes > S.cfg.max_live_bytes || S.sm.live.size() > S.cfg.max_live_blocks);
+  if (over) { wa = 0; }
+  unsigned total = wa + wf + w.realloc_ + w.expand + w.heapop + w.collect + w.query + w.thread;
+  unsigned r = (unsigned)below(S, total);
+  if (r < wa) { do_alloc(S); }
+  else if ((r -= wa) < wf) { vf::Blk* b = pick_victim(S); if (b) { if (b->heap < 0) S.foreign_live--; do_free(S, b); } else do_alloc(S); }
+  else if ((r -= wf) < w.realloc_) { if (over) { vf::Blk* b = pick_victim(S); if (b) { if (b->heap < 0) S.foreign_live--; do_free(S, b); } } else do_realloc(S); }
+  else if ((r -= w.realloc_) < w.expand) do_expand(S);
+  else if ((r -= w.expand) < w.heapop) {
+    unsigned k = (unsigned)below(S, 10);
+    if (k < 4) do_heap_new(S); else if (k < 6) do_heap_delete(S); else if (k < 8) do_heap_destroy(S); else do_set_default(S);
+  }
+  else if ((r -= w.heapop) < w.collect) do_collect(S);
+  else if ((r -= w.collect) < w.query) do_query(S);
+  else { if (chance(S, 1, 2)) do_remote_free_batch(S); else do_thread_alloc_exit(S); }
+
+  if (S.cfg.trace >= 2 && S.foreign_live == 0) check_conservation(S, "paranoid", "C12");
+  if ((S.op_index & 255) == 255) check_conservation(S, "periodic", walkprof ? "C12" : "C12,C05,C10");
+  if ((S.op_index & 511) == 511) { vf_cur_what = "verify_all"; S.sm.verify_all("periodic verification"); }
+  if (walkprof ? ((S.op_index & 63) == 63) : ((S.op_index & 1023) == 1023)) walk_compare(S, "C12");
+}
+
+void history_end(State& S) {
+  vf_cur_op = S.op_index;
   vf_cur_what = "final verification";
   S.sm.verify_all("end of history");
   walk_compare(S, "C12");
@@ -930,9 +957,18 @@ void run_history(State& S) {
   check_errors(S, "end");
 }
 
+void run_history(State& S) {
+  history_begin(S);
+  for (S.op_index = 0; S.op_index < S.cfg.ops; S.op_index++) history_step(S);
+  history_end(S);
+}
+
 // ------------------------------------------------------------------------------------------------
 // result
 // ------------------------------------------------------------------------------------------------
+static void (*g_printers[8])(FILE*); static int g_nprinters = 0;
+void add_result_printer(void (*fn)(FILE*)) { if (g_nprinters < 8) g_printers[g_nprinters++] = fn; }
+
 void result_body(FILE* f) {
   State& S = *G;
   fprintf(f, "\"profile\":\"%s\",\"variant\":\"%s\",\"seed\":%llu,\"ops\":%llu,\"ops_done\":%llu,\"hash\":\"%016llx\",", S.cfg.profile.c_str(), S.cfg.variant.c_str(),
@@ -967,7 +1003,7 @@ void result_body(FILE* f) {
           (unsigned long long)c.calls[0], (unsigned long long)c.calls[1], (unsigned long long)c.calls[2], (unsigned long long)c.calls[3], (unsigned long long)c.purge_calls, (unsigned long long)c.purge_bytes,
           (unsigned long long)(c.injected[0] + c.injected[1] + c.injected[2] + c.injected[3]), (unsigned long long)(c.failed_real[0] + c.failed_real[1] + c.failed_real[2] + c.failed_real[3]),
           (unsigned long long)c.clock_calls);
-  extra_result_body(f);
+  for (int i = 0; i < g_nprinters; i++) g_printers[i](f);
 }
 
 } // namespace seq
@@ -991,6 +1027,12 @@ int main(int argc, char** argv) {
   S.cfg.threads = vf_getarg_ll(argc, argv, "--threads", 0) != 0;
   S.cfg.size_cap = (uint64_t)vf_getarg_ll(argc, argv, "--size-cap", 0);
   S.cfg.trace = (int)vf_getarg_ll(argc, argv, "--trace", 0);
+  S.cfg.size_mode = (int)vf_getarg_ll(argc, argv, "--size-mode", 0);
+  S.cfg.generic = vf_getarg(argc, argv, "--generic", "");
+  S.cfg.workload = (int)vf_getarg_ll(argc, argv, "--workload", 0);
+  S.cfg.faults = vf_getarg(argc, argv, "--faults", "");
+  S.cfg.reps = (int)vf_getarg_ll(argc, argv, "--reps", 6);
+  S.cfg.scenario = vf_getarg(argc, argv, "--scenario", "all");
   S.cfg.max_live_bytes = (size_t)vf_getarg_ll(argc, argv, "--max-live-mb", 192) << 20;
   vf_rng_seed(&S.rng, S.cfg.seed);
   vf_result_body = &result_body;
